@@ -653,7 +653,51 @@ def trunc_cases(maxlen):
 
 
 # =============================================================================== the check
+# what coq/Model/C05_AcceptLang.v mirrors by hand (each Gallina function's comment names the Python it follows)
+MODELLED = [
+    "webob.acceptparse:AcceptLanguageValidHeader.basic_filtering",          # bf_scan .. basic_filtering
+    "webob.acceptparse:AcceptLanguageValidHeader.lookup",                   # lk_tables_of, best_match/bm_loop, lookup
+    "webob.acceptparse:_AcceptLanguageInvalidOrNoHeader.basic_filtering",   # basic_filtering_nohdr
+    "webob.acceptparse:_AcceptLanguageInvalidOrNoHeader.lookup",            # lookup_nohdr
+    "webob.acceptparse:AcceptLanguageValidHeader.__init__",                 # hstep: the state is _parsed, set once here
+    "webob.acceptparse:AcceptLanguageValidHeader.parsed",                   # the model's input / parsed_val
+]
+REGENERATED = []
+# exercised on the real implementation by the oracle only (glue and the other methods inside call histories)
+ORACLE_ONLY = [
+    "webob.acceptparse:create_accept_language_header",
+    "webob.acceptparse:accept_language_property",
+    "webob.request:BaseRequest.accept_language",
+    "webob.acceptparse:AcceptLanguage.parse",
+    "webob.acceptparse:AcceptLanguage.lang_range_n_weight_compiled_re",
+    "webob.acceptparse:AcceptLanguage.accept_language_compiled_re",
+    "webob.acceptparse:AcceptLanguageValidHeader.header_value",
+    "webob.acceptparse:AcceptLanguageValidHeader.copy",
+    "webob.acceptparse:AcceptLanguageValidHeader.__add__",
+    "webob.acceptparse:AcceptLanguageValidHeader.__radd__",
+    "webob.acceptparse:AcceptLanguageValidHeader._add_instance_and_non_accept_language_type",
+    "webob.acceptparse:AcceptLanguageValidHeader.__bool__",
+    "webob.acceptparse:AcceptLanguageValidHeader.__contains__",
+    "webob.acceptparse:AcceptLanguageValidHeader.__iter__",
+    "webob.acceptparse:AcceptLanguageValidHeader.__str__",
+    "webob.acceptparse:AcceptLanguageValidHeader.__repr__",
+    "webob.acceptparse:AcceptLanguageValidHeader._old_match",
+    "webob.acceptparse:AcceptLanguageValidHeader.best_match",
+    "webob.acceptparse:AcceptLanguageValidHeader.quality",
+    "webob.acceptparse:_AcceptLanguageInvalidOrNoHeader.__bool__",
+    "webob.acceptparse:_AcceptLanguageInvalidOrNoHeader.__contains__",
+    "webob.acceptparse:_AcceptLanguageInvalidOrNoHeader.__iter__",
+    "webob.acceptparse:_AcceptLanguageInvalidOrNoHeader.best_match",
+    "webob.acceptparse:_AcceptLanguageInvalidOrNoHeader.quality",
+    "webob.acceptparse:AcceptLanguageNoHeader",
+    "webob.acceptparse:AcceptLanguageInvalidHeader",
+]
+
+
 def run(ctx):
+    ctx.modelled(MODELLED)
+    ctx.extra["regenerated_from_source"] = REGENERATED
+    ctx.extra["oracle_only"] = ORACLE_ONLY
     ctx.build(["Props/C05.vo"])
     warnings.simplefilter("ignore")
 
